@@ -239,4 +239,5 @@ func Run(c *hx.Ctx) {
 	runPart5(c) // kinds rp, re (c17r9.go)
 	runPart6(c) // kind hm (c17h10.go)
 	runAh(c)    // kind ah (c17h10ah.go)
+	runPa(c)    // kind pa (c17pt.go)
 }
